@@ -39,8 +39,12 @@ pub trait LexicographicIterator {
     fn seek_upper_bound(&mut self, target: &str) -> std::result::Result<bool, Self::Error> {
         let exact_match = self.seek_lower_bound(target)?;
         if exact_match {
-            // Move to next string after exact match
-            self.next()?;
+            // Move past every string equal to the target (there may be duplicates)
+            while self.current() == Some(target) {
+                if !self.next()? {
+                    break;
+                }
+            }
         }
         Ok(false) // Never an exact match by definition
     }
